@@ -277,9 +277,10 @@ let striped_init opts pre =
   let s0 = ainit (List.map zint pre) in
   let n = opt_int opts "pglen" 0 in
   if n = 0 then s0 else begin
-    let cap = opt_int opts "pgcap" n and mask = opt_int opts "pgmask" 0 in
+    let cap = opt_int opts "pgcap" n and mask = opt_int opts "pgmask" 0 and md = opt_int opts "pgmod" 0 in
+    let full j = if md > 0 then j mod md <> 0 else (mask lsr j) land 1 = 1 in
     let next = ref 0 in
-    let slots = List.init cap (fun j -> if j < n && (mask lsr j) land 1 = 1 then (incr next; nat_of_int !next) else O) in
+    let slots = List.init cap (fun j -> if j < n && full j then (incr next; nat_of_int !next) else O) in
     { s0 with a_table = Some (O, nat_of_int n); a_arrays = [slots]; a_cells = List.init !next (fun _ -> Z0) }
   end
 let adder_comp mach sh0 kind_of = {
